@@ -5,7 +5,8 @@ reference semantics prescribes.
 
 `Impl.exec` mirrors the `execute` methods and the protected-prefix `MichelsonStack` of pytezos (tied to the
 code by the correspondence run); `Spec.eval` is the big-step reference semantics of the modelled core over a
-plain list (values carry their types; ill-typed configurations and running out of fuel are `err`).
+plain list (values carry their types; outcomes: a stack, a FAILWITH value, a runtime failure `rtfail`, out of fuel
+`oof`, `stuck` for ill-typed configurations, and — guard mode only — `offguard`).
 The modelled core is exactly the constructors of `Interp.Instr`.
 
 FULL STATEMENT (properties.jsonl): for every well-typed program … the interpreter ends with exactly the stack,
@@ -19,41 +20,50 @@ open Interp
 
 /-- **refinement, any protected prefix** (the form used inside DIP / DIG / DUG / DUP n):
 for every program, fuel bound, environment, visible stack `st` and protected prefix `pre`, if the reference
-semantics yields a stack or a FAILWITH value, the pytezos machine started on `pre ++ st` with `pre` protected
-yields the same stack under the same prefix, resp. the same FAILWITH value. -/
+semantics is not stuck and stays inside the guard, the pytezos machine started on `pre ++ st` with `pre` protected
+has the reference outcome: the same stack under the same prefix, the same FAILWITH value, a runtime failure (mutez
+overflow, shift by more than 256 bits) exactly where the reference fails, and it exhausts the fuel bound exactly when
+the reference does. -/
 theorem exec_refines_spec (env : Env) (fuel : Nat) (i : Instr) (pre st : List Val)
-    (h : Spec.eval true env fuel i st ≠ .err) :
+    (h : Spec.eval true env fuel i st ≠ .stuck) (hg : Spec.eval true env fuel i st ≠ .offguard) :
     Impl.exec env fuel i (stk pre st) = (Spec.eval true env fuel i st).map' (stk pre) :=
-  Interp.exec_refines_spec env fuel i pre st h
+  Interp.exec_refines_spec env fuel i pre st h hg
+
+/-- a REPL / contract run on the stack `st`: the guarded reference outcome, whatever it is -/
+theorem run_eq_guarded (env : Env) (fuel : Nat) (i : Instr) (st : List Val)
+    (h : Spec.eval true env fuel i st ≠ .stuck) (hg : Spec.eval true env fuel i st ≠ .offguard) :
+    Impl.run env fuel i st = Spec.eval true env fuel i st := by
+  have := Interp.exec_refines_spec env fuel i [] st h hg
+  simp only [stk, List.nil_append, List.length_nil] at this
+  rw [Impl.run, this]
+  cases Spec.eval true env fuel i st <;> simp [Res.map', Res.bind, stk]
 
 /-- a REPL / contract run: final stack -/
 theorem run_ok (env : Env) (fuel : Nat) (i : Instr) (st st' : List Val)
     (h : Spec.eval true env fuel i st = .ok st') : Impl.run env fuel i st = .ok st' := by
-  have := Interp.exec_refines_spec env fuel i [] st (by rw [h]; intro e; cases e)
-  simp only [stk, List.nil_append, List.length_nil] at this
-  simp [Impl.run, this, h, Res.map', Res.bind, stk]
+  rw [run_eq_guarded env fuel i st (by rw [h]; intro e; cases e) (by rw [h]; intro e; cases e), h]
 
 /-- a REPL / contract run: FAILWITH value -/
 theorem run_failwith (env : Env) (fuel : Nat) (i : Instr) (st : List Val) (v : Val)
     (h : Spec.eval true env fuel i st = .failed v) : Impl.run env fuel i st = .failed v := by
-  have := Interp.exec_refines_spec env fuel i [] st (by rw [h]; intro e; cases e)
-  simp only [stk, List.nil_append, List.length_nil] at this
-  simp [Impl.run, this, h, Res.map', Res.bind]
+  rw [run_eq_guarded env fuel i st (by rw [h]; intro e; cases e) (by rw [h]; intro e; cases e), h]
 
-/-- the guard only removes behaviours: a guarded reference execution is a reference execution -/
+/-- a REPL / contract run: runtime failure (mutez overflow / underflow, shift by more than 256 bits) -/
+theorem run_rtfail (env : Env) (fuel : Nat) (i : Instr) (st : List Val)
+    (h : Spec.eval true env fuel i st = .rtfail) : Impl.run env fuel i st = .rtfail := by
+  rw [run_eq_guarded env fuel i st (by rw [h]; intro e; cases e) (by rw [h]; intro e; cases e), h]
+
+/-- the guard only removes behaviours: a reference execution that stays inside the guard is a reference execution -/
 theorem guarded_is_reference (env : Env) (fuel : Nat) (i : Instr) (st : List Val)
-    (h : Spec.eval true env fuel i st ≠ .err) : Spec.eval false env fuel i st = Spec.eval true env fuel i st :=
-  Interp.eval_guard env fuel i st h
+    (hg : Spec.eval true env fuel i st ≠ .offguard) : Spec.eval false env fuel i st = Spec.eval true env fuel i st :=
+  Interp.eval_guard env fuel i st hg
 
 /-- corollary in terms of the unguarded reference semantics -/
 theorem run_eq_reference (env : Env) (fuel : Nat) (i : Instr) (st : List Val)
-    (h : Spec.eval true env fuel i st ≠ .err) :
+    (h : Spec.eval true env fuel i st ≠ .stuck) (hg : Spec.eval true env fuel i st ≠ .offguard) :
     Impl.run env fuel i st = Spec.eval false env fuel i st := by
-  rw [guarded_is_reference env fuel i st h]
-  cases hq : Spec.eval true env fuel i st with
-  | err => exact absurd hq h
-  | ok st' => exact run_ok env fuel i st st' hq
-  | failed v => exact run_failwith env fuel i st v hq
+  rw [guarded_is_reference env fuel i st hg]
+  exact run_eq_guarded env fuel i st h hg
 
 /-- the stack discipline alone: DIP n / DIG n / DUG n / DUP n through `protect`/`restore` are `take`/`drop`
 on the visible stack, for every depth, stack and prefix -/
@@ -62,7 +72,7 @@ theorem dip_n_spec (env : Env) (fuel n : Nat) (body : Instr) (pre st st' : List 
     Impl.exec env (fuel + 1) (.DIPN n body) (stk pre st) = .ok (stk pre (st.take n ++ st')) := by
   have hs : Spec.eval true env (fuel + 1) (.DIPN n body) st = .ok (st.take n ++ st') := by
     simp [Spec.eval, hn, h]
-  rw [Interp.exec_refines_spec env (fuel + 1) (.DIPN n body) pre st (by rw [hs]; intro e; cases e), hs]
+  rw [Interp.exec_refines_spec env (fuel + 1) (.DIPN n body) pre st (by rw [hs]; intro e; cases e) (by rw [hs]; intro e; cases e), hs]
   rfl
 
 def env0 : Env := { amount := 0, balance := 0, sender := [], source := [], self := [], now := 0, level := 1, chainId := [] }
@@ -74,7 +84,7 @@ theorem map_empty_counterexample :
       = .ok [.list .int []] ∧
     Impl.run env0 5 (.seq [.NIL .timestamp, .MAP (.seq [.DROP, .PUSH .int (.num .int 0)])]) []
       = .ok [.list .timestamp []] ∧
-    Spec.eval true env0 5 (.seq [.NIL .timestamp, .MAP (.seq [.DROP, .PUSH .int (.num .int 0)])]) [] = .err := by
+    Spec.eval true env0 5 (.seq [.NIL .timestamp, .MAP (.seq [.DROP, .PUSH .int (.num .int 0)])]) [] = .offguard := by
   refine ⟨?_, ?_, ?_⟩ <;>
     simp [Spec.eval, Spec.evalSeq, Spec.evalMap, Spec.step, Spec.listOf, Spec.mapOutTy, Typing.typeInstr, Typing.typeSeq,
       Typing.step, Typing.checkVal, Impl.run, Impl.exec, Impl.execSeq, Impl.step, Impl.mapLoop, Stack.push, Stack.pop1,
@@ -139,7 +149,7 @@ example : Impl.run env0 20
     = .ok [.set .nat [.num .nat 2, .num .nat 5]] :=
   run_ok env0 20 _ [] _ (by rfl)
 -- an ill-formed (unsorted) set is outside the reference rules, and its literal is not a well-formed literal
-example : Spec.eval true env0 20 (.seq [.PUSH (.set .int) (.set .int [.num .int 3, .num .int 1]), .PUSH .int (.num .int 1), .MEM]) [] = .err := by rfl
+example : Spec.eval true env0 20 (.seq [.PUSH (.set .int) (.set .int [.num .int 3, .num .int 1]), .PUSH .int (.num .int 1), .MEM]) [] = .stuck := by rfl
 example : Typing.literalsOk (.PUSH (.set .int) (.set .int [.num .int 3, .num .int 1])) = false := by rfl
 
 -- hashing: for EVERY choice of the five hash functions the machine pushes the function's value (here an arbitrary `h`)
